@@ -20,6 +20,7 @@ import (
 	"go/parser"
 	"go/token"
 	"go/types"
+	"strings"
 
 	"golang.org/x/tools/go/ssa"
 	"golang.org/x/tools/go/ssa/ssautil"
@@ -349,4 +350,48 @@ func outerName(fn *ssa.Function) string {
 		name = p.Name()
 	}
 	return name
+}
+
+// checkPackageState (no-local-progress/package-state): D4 asks that a run keeps no progress of its own —
+// every decision is read off the chain, so a run that is cancelled and started again (in the same process
+// too) behaves like a fresh one. A package-level variable that function bodies write, write through, or hand
+// out by address (a cache, a memo table, a sync.Map) is progress kept outside the chain. Package-level
+// variables that are only ever *loaded* outside the package initialiser (sentinel errors, compiled patterns,
+// tables) are not state.
+func checkPackageState(cx *CheckCtx, sp *ssa.Package) {
+	nGlobals, bad, where := 0, "", ""
+	globals := map[*ssa.Global]bool{}
+	for _, mem := range sp.Members {
+		if g, ok := mem.(*ssa.Global); ok && !strings.HasPrefix(g.Name(), "init$") {
+			globals[g] = true
+			nGlobals++
+		}
+	}
+	for _, fn := range allFuncs(sp) {
+		if fn.Blocks == nil || fn.Name() == "init" || strings.HasPrefix(fn.Name(), "init#") {
+			continue
+		}
+		for _, b := range fn.Blocks {
+			for _, in := range b.Instrs {
+				var ops []*ssa.Value
+				for _, op := range in.Operands(ops) {
+					g, ok := (*op).(*ssa.Global)
+					if !ok || !globals[g] {
+						continue
+					}
+					if u, isLoad := in.(*ssa.UnOp); isLoad && u.Op == token.MUL && u.X == g {
+						continue // a plain read of the variable
+					}
+					if bad == "" {
+						bad, where = g.Name(), cx.W.pos(in.Pos())
+						if where == "" || strings.HasPrefix(where, "-") {
+							where = cx.W.pos(fn.Pos())
+						}
+					}
+				}
+			}
+		}
+	}
+	cx.count("package_variables", nGlobals)
+	cx.decide(bad == "", "no-local-progress", "deploy/package-state", fmt.Sprintf("%d package-level variables, each only read outside the initialiser", nGlobals), "package-level variable "+bad+" is written, written through or handed out by address in a function body: the procedure keeps state of its own between stages and between a cancelled run and its restart (a cached transaction, a memo table), decisions no longer come from the chain alone", where)
 }
